@@ -1,0 +1,51 @@
+package cmd
+
+import (
+	"fmt"
+	"os"
+	"path/filepath"
+)
+
+// writeFileAtomic replaces the contents of path with data such that a reader
+// (or a crash, or a failing write) never observes a partially written file:
+// the data is written to a temporary file in the same directory, synced and
+// then renamed over the original. If anything fails before the rename the
+// original file is left untouched and the temporary file is removed.
+//
+// An existing file keeps its permission bits; perm is only used when the file
+// does not exist yet. Symbolic links are followed so the link itself survives.
+func writeFileAtomic(path string, data []byte, perm os.FileMode) (err error) {
+	target := path
+	if resolved, rerr := filepath.EvalSymlinks(path); rerr == nil {
+		target = resolved
+	}
+	if info, serr := os.Stat(target); serr == nil {
+		perm = info.Mode().Perm()
+	}
+
+	tmp, err := os.CreateTemp(filepath.Dir(target), "."+filepath.Base(target)+".tmp-*")
+	if err != nil {
+		return fmt.Errorf("failed to create temporary file: %w", err)
+	}
+	tmpName := tmp.Name()
+	defer func() {
+		if err != nil {
+			_ = tmp.Close()
+			_ = os.Remove(tmpName)
+		}
+	}()
+
+	if _, err = tmp.Write(data); err != nil {
+		return err
+	}
+	if err = tmp.Chmod(perm); err != nil {
+		return err
+	}
+	if err = tmp.Sync(); err != nil {
+		return err
+	}
+	if err = tmp.Close(); err != nil {
+		return err
+	}
+	return os.Rename(tmpName, target)
+}
